@@ -317,12 +317,17 @@ pub fn gen_faulty_unit(
             Some((u, UnitKind::Normal))
         }
         Fault::Arity => {
-            let mut u = unit_for(t, with(&|d| d.params.len() < 10))?;
+            // any declaration, also one with the maximum of ten parameters (an eleventh is then one
+            // more than the library supports at all)
+            let mut u = unit_for(t, with(&|_| true))?;
             if !u.args.is_empty() && t.chance(1, 2) {
                 u.args.pop();
             }
             else {
-                u.args.push(Lit::Dec("1".into()));
+                let extra = t.range(1, 2);
+                for _ in 0..extra {
+                    u.args.push([Lit::Dec("1".into()), Lit::Chars("X".into()), Lit::Dec("2.5".into())][t.below(3)].clone());
+                }
             }
             Some((u, UnitKind::Normal))
         }
